@@ -166,7 +166,7 @@ class LiteralProvider(LoaderProvider, DumperProvider):
         self,
         basic_loader: Loader,
         enum_loaders: Sequence[Loader[Enum]],
-        allowed_values: Collection,
+        typed_allowed_values: Collection,
     ) -> Loader:
         if not enum_loaders:
             return basic_loader
@@ -180,7 +180,7 @@ class LiteralProvider(LoaderProvider, DumperProvider):
                 except LoadError:
                     pass
                 else:
-                    if enum_value in allowed_values:
+                    if (type(enum_value), enum_value) in typed_allowed_values:
                         return enum_value
                 return basic_loader(data)
 
@@ -193,7 +193,7 @@ class LiteralProvider(LoaderProvider, DumperProvider):
                 except LoadError:
                     pass
                 else:
-                    if enum_value in allowed_values:
+                    if (type(enum_value), enum_value) in typed_allowed_values:
                         return enum_value
             return basic_loader(data)
 
@@ -202,7 +202,7 @@ class LiteralProvider(LoaderProvider, DumperProvider):
     def _get_literal_loader_with_bytes(
         self,
         basic_loader: Loader,
-        allowed_values: Collection,
+        typed_allowed_values: Collection,
         bytes_loader: Loader,
     ) -> Loader:
         def wrapped_loader_with_bytes(data):
@@ -211,7 +211,7 @@ class LiteralProvider(LoaderProvider, DumperProvider):
             except LoadError:
                 pass
             else:
-                if bytes_value in allowed_values:
+                if (type(bytes_value), bytes_value) in typed_allowed_values:
                     return bytes_value
             return basic_loader(data)
 
@@ -263,13 +263,14 @@ class LiteralProvider(LoaderProvider, DumperProvider):
         bytes_loader: Loader[bytes],
     ) -> Loader:
         cases = [case for _, case in typed_cases]
-        # results of enum and bytes loaders are compared with the cases themselves
         allowed_values = self._get_allowed_values_collection(cases)
+        # results of enum and bytes loaders are compared with the cases together with their classes:
+        # a member of an enum with int, str or bytes mixin is equal to its plain value (IntE.A == 1 == True)
+        allowed_values_with_types = self._get_allowed_values_collection(
+            [(type(el), el) for el in cases],
+        )
 
         if strict_coercion and any(isinstance(arg, bool) or _is_exact_zero_or_one(arg) for arg in cases):
-            allowed_values_with_types = self._get_allowed_values_collection(
-                [(type(el), el) for el in cases],
-            )
 
             # since True == 1 and False == 0
             def literal_loader(data):
@@ -289,14 +290,14 @@ class LiteralProvider(LoaderProvider, DumperProvider):
                 raise BadVariantLoadError(allowed_values_repr, data)
 
         if bytes_cases and not enum_loaders:
-            return self._get_literal_loader_with_bytes(literal_loader, allowed_values, bytes_loader)
+            return self._get_literal_loader_with_bytes(literal_loader, allowed_values_with_types, bytes_loader)
 
         if not bytes_cases:
-            return self._get_literal_loader_with_enum(literal_loader, enum_loaders, allowed_values)
+            return self._get_literal_loader_with_enum(literal_loader, enum_loaders, allowed_values_with_types)
 
         return self._get_literal_loader_many(
-            self._get_literal_loader_with_bytes(literal_loader, allowed_values, bytes_loader),
-            self._get_literal_loader_with_enum(literal_loader, enum_loaders, allowed_values),
+            self._get_literal_loader_with_bytes(literal_loader, allowed_values_with_types, bytes_loader),
+            self._get_literal_loader_with_enum(literal_loader, enum_loaders, allowed_values_with_types),
             basic_loader=literal_loader,
         )
 
